@@ -4,6 +4,7 @@
    request m (its request is intact). *)
 From Coq Require Import List Arith NArith Bool ZArith.
 From NngV Require Import Gen.Consts Proto.Common Proto.ReqRepBacktrace Proto.ReqModel Proto.ReqRepProofs Proto.ReqProofs.
+From NngV Require Import Proto.PollModel Proto.PollReq Proto.ReqProgressProofs.
 Import ListNotations.
 
 (* PARTIAL: stated for a pipe whose `contexts' list holds exactly this context (the
@@ -41,14 +42,12 @@ Theorem req_queue_never_drops : forall fx s k m s' outs cl,
 Proof. exact run_send_queue_pending. Qed.
 Print Assumptions req_queue_never_drops.
 
-(* req_progress, PARTIAL: the three bounded steps of the liveness argument are
-   proved separately -- (1) pipe loss or (2) an expired retry time put the request
-   back on the send queue (theorems above), (3) a pipe that becomes ready takes the
-   head of the queue in that very step, and (4) a matching reply completes the
-   posted receive in that very step.  Missing: the induction over the position in
-   the send queue (a request at position i is transmitted after i+1 pipe-ready
-   events) and the composition into one statement over histories. *)
-Theorem req_progress_partial :
+(* req_progress as bounded progress.  The single steps of the liveness argument:
+   (1) pipe loss or (2) an expired retry time put the request back on the send
+   queue (theorems above), (3) a pipe that becomes ready takes the head of the
+   queue in that very step, (4) a matching reply completes the posted receive in
+   that very step ... *)
+Theorem req_progress_steps :
   (forall fx s p k sq c m s' outs,
      rq_ready s = [] -> rq_sendq s = k :: sq -> ctx_get s k = Some c -> cx_req c = Some m ->
      req_step fx s (PPipeStart p PROTO_REP) = (s', outs) -> In (TranSend p m) outs) /\
@@ -56,7 +55,52 @@ Theorem req_progress_partial :
      req_recv (pm_body m) = Some (id, b) -> matchable s id k c -> cx_recv c = Some a ->
      exists s', exists outs, req_step fx s (PRecvDone p 0 m) = (s', outs) /\ In (Complete a E_OK (Some b)) outs).
 Proof. split; [exact req_pipe_start_progress|exact req_match_completes]. Qed.
-Print Assumptions req_progress_partial.
+Print Assumptions req_progress_steps.
+(* ... and (5) the induction over the position in the send queue: a request at
+   position i of the queue is transmitted after i+1 pipe-ready events, on the
+   (i+1)-th of those pipes, whatever else is queued before or behind it (`run_outs'
+   = the outputs of a list of steps, `starts ps' = PPipeStart p for p in ps).
+   First for any state whose queued contexts hold requests, then for every
+   reachable state of the repaired model (where that, and "no pipe idle while
+   requests wait", are consequences of the reachable-state invariant RInv). *)
+Theorem req_queue_position_progress : forall fx ps s pre k post c m,
+  rq_ready s = [] ->
+  rq_sendq s = pre ++ k :: post ->
+  (forall k', In k' (rq_sendq s) -> exists c' m', ctx_get s k' = Some c' /\ cx_req c' = Some m') ->
+  ctx_get s k = Some c -> cx_req c = Some m ->
+  length ps = S (length pre) ->
+  exists p, In p ps /\ In (TranSend p m) (snd (run_outs fx s (starts ps))).
+Proof. exact ReqProgressProofs.req_queue_position_progress. Qed.
+Print Assumptions req_queue_position_progress.
+Theorem req_queue_position_exact : forall fx ps s pre k post c m,
+  rq_ready s = [] -> rq_sendq s = pre ++ k :: post ->
+  (forall k', In k' (rq_sendq s) -> exists c' m', ctx_get s k' = Some c' /\ cx_req c' = Some m') ->
+  ctx_get s k = Some c -> cx_req c = Some m ->
+  length pre < length ps ->
+  In (TranSend (nth (length pre) ps 0%N) m) (snd (run_outs fx s (starts ps))).
+Proof. exact ReqProgressProofs.req_queue_position_exact. Qed.
+Print Assumptions req_queue_position_exact.
+Theorem req_queue_position_progress_reachable : forall fx ps s pre k post,
+  fx_rdclr fx = true -> reachable (M_req fx) s ->
+  rq_sendq s = pre ++ k :: post ->
+  length ps = S (length pre) ->
+  exists c m, ctx_get s k = Some c /\ cx_req c = Some m /\
+    exists p, In p ps /\ In (TranSend p m) (snd (run_outs fx s (starts ps))).
+Proof. exact ReqProgressProofs.req_queue_position_progress_reachable. Qed.
+Print Assumptions req_queue_position_progress_reachable.
+(* non-vacuity: three requests queued with no pipe; three pipes; the third request
+   leaves on the third pipe *)
+Example req_queue_position_nonvacuous :
+  rq_ready s_queue3 = [] /\ rq_sendq s_queue3 = [0%N; 1%N] ++ 2%N :: [] /\
+  reachable (M_req fx_repaired) s_queue3 /\
+  In (TranSend 3%N w_wire3) (snd (run_outs fx_repaired s_queue3 (starts [1%N; 2%N; 3%N]))).
+Proof.
+  destruct ReqProgressProofs.req_queue_position_nonvacuous as (A & B & _ & _ & R & O).
+  split; [exact A|]. split; [exact B|]. split; [exact R|]. rewrite O. cbn. tauto.
+Qed.
+(* PARTIAL (what is still missing of req_progress): the composition of (1)-(5)
+   into one statement over whole histories (loss or tick, requeue, position
+   argument, reply) under a fairness assumption on pipe arrivals. *)
 
 (* resending disabled (PARTIAL in the same sense as above: single context on the
    pipe's list): the loss of the connection never queues the request again; it
